@@ -102,30 +102,31 @@ let append_limit limit l r =
   else app l
          (qfirstn (N.to_nat (N.min (N.of_nat (length r)) (N.sub limit n1))) r)
 
-(** val final_slice : coq_N -> coq_N -> 'a1 list -> 'a1 list option **)
+(** val final_slice : coq_N -> coq_N -> 'a1 list -> 'a1 list **)
 
 let final_slice limit offset rows =
   let len = N.of_nat (length rows) in
-  if N.ltb len offset
-  then None
-  else let count = N.min limit (N.sub len offset) in
-       Some (qfirstn (N.to_nat count) (qskipn (N.to_nat offset) rows))
+  let off = N.min offset len in
+  let count = N.min limit (N.sub len off) in
+  qfirstn (N.to_nat count) (qskipn (N.to_nat off) rows)
 
-(** val combined_limit : coq_N -> coq_N -> coq_N option **)
+(** val u64_max : coq_N **)
+
+let u64_max =
+  Npos (Coq_xI (Coq_xI (Coq_xI (Coq_xI (Coq_xI (Coq_xI (Coq_xI (Coq_xI
+    (Coq_xI (Coq_xI (Coq_xI (Coq_xI (Coq_xI (Coq_xI (Coq_xI (Coq_xI (Coq_xI
+    (Coq_xI (Coq_xI (Coq_xI (Coq_xI (Coq_xI (Coq_xI (Coq_xI (Coq_xI (Coq_xI
+    (Coq_xI (Coq_xI (Coq_xI (Coq_xI (Coq_xI (Coq_xI (Coq_xI (Coq_xI (Coq_xI
+    (Coq_xI (Coq_xI (Coq_xI (Coq_xI (Coq_xI (Coq_xI (Coq_xI (Coq_xI (Coq_xI
+    (Coq_xI (Coq_xI (Coq_xI (Coq_xI (Coq_xI (Coq_xI (Coq_xI (Coq_xI (Coq_xI
+    (Coq_xI (Coq_xI (Coq_xI (Coq_xI (Coq_xI (Coq_xI (Coq_xI (Coq_xI (Coq_xI
+    (Coq_xI
+    Coq_xH)))))))))))))))))))))))))))))))))))))))))))))))))))))))))))))))
+
+(** val combined_limit : coq_N -> coq_N -> coq_N **)
 
 let combined_limit limit offset =
-  if N.leb (N.add limit offset) (Npos (Coq_xI (Coq_xI (Coq_xI (Coq_xI (Coq_xI
-       (Coq_xI (Coq_xI (Coq_xI (Coq_xI (Coq_xI (Coq_xI (Coq_xI (Coq_xI
-       (Coq_xI (Coq_xI (Coq_xI (Coq_xI (Coq_xI (Coq_xI (Coq_xI (Coq_xI
-       (Coq_xI (Coq_xI (Coq_xI (Coq_xI (Coq_xI (Coq_xI (Coq_xI (Coq_xI
-       (Coq_xI (Coq_xI (Coq_xI (Coq_xI (Coq_xI (Coq_xI (Coq_xI (Coq_xI
-       (Coq_xI (Coq_xI (Coq_xI (Coq_xI (Coq_xI (Coq_xI (Coq_xI (Coq_xI
-       (Coq_xI (Coq_xI (Coq_xI (Coq_xI (Coq_xI (Coq_xI (Coq_xI (Coq_xI
-       (Coq_xI (Coq_xI (Coq_xI (Coq_xI (Coq_xI (Coq_xI (Coq_xI (Coq_xI
-       (Coq_xI (Coq_xI
-       Coq_xH))))))))))))))))))))))))))))))))))))))))))))))))))))))))))))))))
-  then Some (N.add limit offset)
-  else None
+  N.min (N.add limit offset) u64_max
 
 (** val take_run :
     ('a1 -> 'a1 -> bool) -> 'a1 -> 'a1 list -> nat * 'a1 list **)
